@@ -163,7 +163,11 @@ func (tb *ATable) RegisterPropertyCallback(
 		*cbListPtr = make([]PropertyCallback, 0, 10)
 	}
 
-	*cbListPtr = append(*cbListPtr, theNewCallback)
+	// Always append onto a list without spare capacity, so that a fresh backing
+	// array is allocated: cells are copied by value (Row.Add) and the copies
+	// share the backing array of each callback list, so appending in place
+	// would overwrite a callback registered upon another copy.
+	*cbListPtr = append((*cbListPtr)[:len(*cbListPtr):len(*cbListPtr)], theNewCallback)
 	return nil
 }
 
